@@ -206,17 +206,6 @@ def exc_is_subclass(cls, parent):
     return False
 
 
-class ExcClass:
-    def __init__(self, name):
-        self.name = name
-
-    def m_call(self, eng, args, kwargs):
-        return SExc(self.name, args)
-
-    def __repr__(self):
-        return f"<exc class {self.name}>"
-
-
 class Model:
     """Base class of model objects (abstract stand-ins governed by contracts)."""
 
@@ -258,6 +247,17 @@ class Model:
 
     def m_isinstance(self, eng, clsname):
         return False
+
+
+class ExcClass(Model):
+    def __init__(self, name):
+        self.name = name
+
+    def m_call(self, eng, args, kwargs):
+        return SExc(self.name, args)
+
+    def __repr__(self):
+        return f"<exc class {self.name}>"
 
 
 class Builtin(Model):
@@ -385,6 +385,8 @@ class Engine:
         self._worklist = []
         self._smt_dump = None
         self.used_models = set()
+        self.prune_tags = {"sentinel-arith"}
+        self.pruned = {}
         self.loop_rules = {}
         self._call_node = None
         self._node_stack = []
@@ -406,6 +408,13 @@ class Engine:
                 harness(self)
             except PathInfeasible:
                 pass
+            except PyRaise as pr:
+                tag = getattr(pr.exc, "tag", None)
+                if tag in self.prune_tags:
+                    # path excluded by a documented precondition (e.g. sentinel discipline P-ONE); counted
+                    self.pruned[tag] = self.pruned.get(tag, 0) + 1
+                else:
+                    raise Unsupported(f"uncaught exception in harness: {pr.exc!r}")
             self.paths_done += 1
         return self.obligations
 
